@@ -35,7 +35,7 @@ func init() {
 	// ------------------------------------------------------------------ C01
 	register(&Prop{
 		ID: "C01", Level: "exploration", QuickS: 20, ThoroughS: 300,
-		Rule:       "seeded authentication attempts against ClearTextPassword(validator) and a custom failing strategy: validator outcome drawn per case (accept / reject / fail), the client sends in place of the password message a correct, wrong or empty password, a password message without NUL / with surplus bytes / with declared length 0-3, > limit or 2^32-1, another message type, garbage, or nothing; then a generated tail of queries, extended messages, Terminate and raw bytes, pipelined in the same segment or sent after the server's reply; segmentation and a failing write are drawn per case; non-trivial = the connection was not accepted and the client sent at least one message after its credentials; distinct = distinct case content hashes",
+		Rule:       "seeded authentication attempts against ClearTextPassword(validator) and a custom failing strategy: validator outcome drawn per case (accept / reject / fail with either verdict flag), the client sends in place of the password message a correct, wrong or empty password, a password message without NUL / with surplus bytes / with declared length 0-3, > limit or 2^32-1, another message type, garbage, or nothing; then a generated tail of queries, extended messages, Terminate and raw bytes, pipelined in the same segment or sent after the server's reply; segmentation and a failing write are drawn per case; non-trivial = the connection was not accepted and the client sent at least one message after its credentials; distinct = distinct case content hashes",
 		Components: e1Components, Assumptions: commonAssumptions,
 		Gen: func(r *Rand, tier string) *Case {
 			c := &Case{Server: ServerCfg{Auth: "cleartext", Limit: r.PickInt(64, 256, 4096)}, Programs: map[string]*Program{}}
@@ -49,7 +49,7 @@ func init() {
 				c.Server.Term = "ok"
 			}
 			user, db, pw := r.Ident(4), r.Ident(3), "secret"+r.Ident(2)
-			out := r.Pick("accept", "reject", "reject", "fail")
+			out := r.Pick("accept", "reject", "reject", "fail", "failtrue")
 			c.Server.Validator = []AuthEntry{{DB: db, User: user, PW: pw, Out: out}}
 			c.Server.DefaultAuth = r.Pick("reject", "reject", "fail")
 			var cred pgwire.FMsg
